@@ -403,6 +403,26 @@ def exact_read(name, chrom, strand, exons, polya=25, mapq=60, file=0, tags=None)
                        polya=polya if strand == "+" else 0, polyt=polya if strand == "-" else 0, file=file, tags=tags)
 
 
+def add_tail_gene(src, sc, gid, lengths, gaps, n_reads=(3, 6), polya=25):
+    """One more annotated gene behind everything else on one of the chromosomes (the chromosome is made longer), with
+    exact full-length reads; lengths/gaps give the exon chain (an exon may be a single base)."""
+    c = src.choice(sc["chroms"])
+    p_ = c[1] + src.int(200, 600)
+    chain = []
+    for i, ln in enumerate(lengths):
+        chain.append([p_, p_ + ln - 1])
+        if i < len(gaps):
+            p_ += ln + gaps[i]
+    strand = src.choice(["+", "-"])
+    c[1] = chain[-1][1] + src.int(600, 1500)
+    g = {"id": gid, "chr": c[0], "strand": strand, "canon": "canon", "transcripts": [{"id": gid + ".t1", "exons": chain}]}
+    sc["genes"].append(g)
+    sc["overrides"] += build.splice_overrides(c[0], chain, strand)
+    for i in range(src.int(*n_reads)):
+        sc["reads"].append(exact_read("%s_r%d" % (gid, i), c[0], strand, chain, polya=polya))
+    return g
+
+
 def novel_chains(src, sc, g, k=2, sep=40, edits=("skip", "alt_donor", "alt_acceptor", "alt_first", "alt_last")):
     """Unannotated isoforms of gene g derived with the same edit operators; intron chain differs from all annotated."""
     ann = {intron_key(t["exons"]) for t in g["transcripts"]}
